@@ -520,6 +520,7 @@ func (r *lcRun) run(b Behaviour, idx int) {
 				}
 				head, next, t = e, []cid.Cid{e.GetHash()}, t+1
 			}
+			r.w.Heal(r.inst.P.Name, r.rem.P.Name) // (some moments cut the provider off to keep a fetch of the closed store waiting)
 			before := r.sib.S.OpLog().Len()
 			_, hung := r.watchdog("Sync of the sibling database", 6*time.Second, func() error { return r.sib.S.Sync(ctx, []ipfslog.Entry{head}) })
 			if hung {
